@@ -52,6 +52,8 @@ def gen(tier, seed):
     zs = {
         'inc+': [0.5, 1.5, 3.0, 7.0], 'dec+': [7.0, 3.0, 1.5, 0.5], 'inc-': [-7.0, -3.0, -1.5, -0.5],
         'dec-': [-0.5, -1.5, -3.0, -7.0], 'two': [1.0, 2.0], 'cross': [-1.0, 0.5, 2.0, 4.0],
+        # exactly half of the levels positive (not "more than half"), the two middle values summing to something positive
+        'half2': [-1.0, 5.0], 'half4': [-3.0, -1.0, 2.0, 4.0], 'half4-zero': [2.0, 1.0, 0.0, -1.0],
     }
     attrs = ['down', 'up', 'DOWN', 'Up', None]
     for (zn, z), attr, dimcoord, bounds in itertools.product(zs.items(), attrs, (True, False), (False, 'vars', 'coords')):
